@@ -652,6 +652,7 @@ def run(ctx):
                                  "least one failed DCAS/CAS or a NULL/EMPTY/RETRY answer in the implementation trace"})
     if not ok or ctx.failures:
         search(ctx, exes)
+    core.init_contract(ctx, ["mpmc_lifo", "mpmc_stack", "dist_fifo", "fiber_multi_signal"])  # rt/h_init.c: real init on dirty memory
     core.finish(ctx, extra_assumptions=ASSUME)
 
 
@@ -688,6 +689,8 @@ def corpus(model):
 
 
 def replay(ctx, payload):
+    if payload.get("harness") == "h_init":
+        return core.replay_init(ctx, payload)
     c = payload.get("case")
     label = str(payload.get("harness", ""))
     catchall = label.endswith("+catchall")
